@@ -357,6 +357,11 @@ CHECKS = {
     technique='runtime monitoring: reference recognizer: the check translates each generated grammar itself (DCG draft standard) into plain clauses and runs them on the reference interpreter; phrase/2,3 answers of the machine are compared with it',
     text='Random three-layer grammars (terminal lists and strings, non-terminals with variable or constant arguments, {}//1 unifications, cuts, alternatives with | and ;, if-then-else, call//N, and a pushback rule) are loaded as DCG rules; for 14 sampled inputs over a b c of length 0-5 per grammar the list of all answers of phrase/3 (argument binding and remainder, in order) and of phrase/2 must equal the answers of the independently translated program on vt/miniprolog.py.',
     note='\\\\+ in DCG bodies is rejected by library(dcgs) with a representation error and is therefore not generated (the property does not list it). Cases the reference cannot decide within its step budget are dropped.'),
+ 'C42': dict(
+    level='exploration',
+    technique='runtime monitoring: reference model of the module table; every definition answers with a tag naming its module, so each probe call reveals which definition ran',
+    text='Random layouts of 2-4 module files over the names p q r s (random definitions and export lists, imports from earlier modules through use_module/1 or use_module/2 with a selected list, a separate module providing the meta-predicate mcall/1) are loaded on a fresh machine; inside every module every name is called unqualified, through call/1 of a constructed goal, as argument of mcall/1 (must run in the calling module) and inside findall/3; from user, Module:Name is called for names defined there and for names neither defined nor imported; the tag returned must be the module the model resolves to, or an existence error must be raised where the name is not visible.',
+    note='Layouts the documentation leaves open (a name imported from two modules, a name both defined and imported) are not generated. Module files are pulled in with use_module(File, [marker/0]) because an empty import list does not load the file.'),
 }
 
 NOT_APPLICABLE_REASON_UNBUILT = ('check designed in DESIGN.md but not built/validated yet in this session; '
